@@ -224,7 +224,7 @@ impl Property for C01 {
         "C01"
     }
     fn cases(&self, tier: Tier) -> u32 {
-        tier.pick(24_000, 400_000)
+        tier.pick(100_000, 1_200_000)
     }
     fn strategy(&self, tier: Tier) -> BoxedStrategy<Abs> {
         match tier {
